@@ -160,6 +160,11 @@ class C16(Check):
             idx += 1
             if env.mine(idx):
                 yield {"k": "rootpath", "src": src}
+        # relative sources whose first component looks like a drive: the prefix is removed like any other drive prefix
+        for src in ("c:/sub/x", "D:y", "c:", "P:c:/sub/x"):
+            idx += 1
+            if env.mine(idx):
+                yield {"k": "drivelike", "src": src}
         for form in range(8):
             for entry in ("write", "writeall"):
                 idx += 1
@@ -181,6 +186,8 @@ class C16(Check):
             self._names(case, out)
         elif case["k"] == "rootpath":
             self._rootpath(case, out, env)
+        elif case["k"] == "drivelike":
+            self._drivelike(case, out, env)
         else:
             self._tree(case, out, env)
         return out
@@ -250,6 +257,47 @@ class C16(Check):
                     out.violate({"kind": "neighbour-member-disturbed"}, observed=got, expected=want)
             elif want is not None and resolve_stored(got) != want:
                 out.violate({"kind": "stored-name-not-equivalent"}, observed=got, expected="/".join(want))
+
+    def _drivelike(self, case, out, env):
+        import shutil
+
+        src = case["src"]
+        out.nontrivial = True
+        out.label("tree:drivelike")
+        root = env.tmpdir("t16")
+        cwd = os.getcwd()
+        try:
+            os.chdir(root)
+            rel = src[2:] if src.startswith("P:") else src
+            os.makedirs(os.path.dirname(rel) or ".", exist_ok=True)
+            if rel.endswith(":"):
+                os.makedirs(rel, exist_ok=True)
+            else:
+                with open(rel, "wb") as f:
+                    f.write(b"payload")
+            arg = pathlib.Path(rel) if src.startswith("P:") else rel
+            bio = io.BytesIO()
+            try:
+                with py7zr.SevenZipFile(bio, "w", filters=COPY) as z:
+                    z.writestr(b"before", "before.txt")
+                    try:
+                        z.write(arg)
+                    except (ValueError, OSError):
+                        pass  # a clean refusal stores nothing
+            except Exception as e:
+                out.violate({"kind": "tree-write-raises", "entry": "write", "form": "drivelike", "exc": type(e).__name__}, observed={"src": src, "exc": repr(e)[:200]},
+                            expected="relative name stored or clean refusal")
+                return
+            bio.seek(0)
+            with py7zr.SevenZipFile(bio, "r") as r:
+                listed = r.getnames()
+            out.sample = {"src": src, "listed": listed}
+            for n in listed:
+                if is_absolute_name(n) or re.match(r"^[A-Za-z]:", n):
+                    out.violate({"kind": "drive-prefix-stored", "entry": "write"}, observed={"src": src, "stored": n}, expected="name without drive prefix")
+        finally:
+            os.chdir(cwd)
+            shutil.rmtree(root, ignore_errors=True)
 
     def _rootpath(self, case, out, env):
         src = case["src"]
